@@ -1,3 +1,5 @@
+CONSTANTS
+  FamOf <- TraceFamOf
 INIT Init
 NEXT TNext
 INVARIANT Inv
